@@ -30,7 +30,9 @@ from icalendar.timezone import tzp
 
 UTC = timezone.utc
 ZA, ZB = "Europe/Berlin", "America/New_York"
-PARAMS = ({}, {"X-P": "plain"}, {"ALTREP": "http://x/y;z"}, {"MEMBER": ["mailto:a@x", "mailto:b@x"]}, {"x-Mixed": "v"})
+PARAMS = ({}, {"X-P": "plain"}, {"ALTREP": "http://x/y;z"}, {"MEMBER": ["mailto:a@x", "mailto:b@x"]}, {"x-Mixed": "v"},
+          # "arbitrary parameters": an empty value, RFC 6868 look-alikes (written raw, must come back raw), a non-BMP character
+          {"X-EMPTY": "", "X-CARET": "Fermat a^n+b^n=c^n 2^^3 it^'s", "X-ASTRAL": "\U0001F600"})
 
 
 def zoned(z, *a):
